@@ -1,4 +1,658 @@
+// axh: run case scripts against the real ax-x86 crate (built with --cfg ax_verif)
+// and print canonical results.  usage: axh run <cases-file> <out-file>
+//        axh enums            (dump iced enum names used by the model)
+use ax_x86::auto::generated::SupportedMnemonic;
+use ax_x86::axecutor::Axecutor;
+use ax_x86::helpers::syscalls::Syscall;
+use ax_x86::state::hooks::HookResult;
+use ax_x86::state::registers::SupportedRegister;
+use iced_x86::{Decoder, DecoderOptions, Instruction};
+use std::fmt::Write as _;
+use std::io::{BufRead, BufReader, BufWriter, Write};
+use std::panic::{catch_unwind, AssertUnwindSafe};
+
+fn hex(s: &str) -> u64 {
+    u64::from_str_radix(s, 16).unwrap_or_else(|_| panic!("bad hex {}", s))
+}
+fn hex128(s: &str) -> u128 {
+    u128::from_str_radix(s, 16).unwrap_or_else(|_| panic!("bad hex {}", s))
+}
+fn bytes(s: &str) -> Vec<u8> {
+    if s == "-" {
+        return vec![];
+    }
+    (0..s.len() / 2).map(|i| u8::from_str_radix(&s[2 * i..2 * i + 2], 16).unwrap()).collect()
+}
+fn hexs(b: &[u8]) -> String {
+    if b.is_empty() {
+        return "-".into();
+    }
+    let mut s = String::with_capacity(b.len() * 2);
+    for x in b {
+        write!(s, "{:02x}", x).unwrap();
+    }
+    s
+}
+
+const REGS: &[(&str, SupportedRegister)] = &{
+    use SupportedRegister::*;
+    [
+        ("RIP", RIP), ("EIP", EIP), ("RAX", RAX), ("RBX", RBX), ("RCX", RCX), ("RDX", RDX), ("RSI", RSI), ("RDI", RDI),
+        ("RSP", RSP), ("RBP", RBP), ("R8", R8), ("R9", R9), ("R10", R10), ("R11", R11), ("R12", R12), ("R13", R13),
+        ("R14", R14), ("R15", R15), ("EAX", EAX), ("EBX", EBX), ("ECX", ECX), ("EDX", EDX), ("ESI", ESI), ("EDI", EDI),
+        ("ESP", ESP), ("EBP", EBP), ("R8D", R8D), ("R9D", R9D), ("R10D", R10D), ("R11D", R11D), ("R12D", R12D),
+        ("R13D", R13D), ("R14D", R14D), ("R15D", R15D), ("AX", AX), ("BX", BX), ("CX", CX), ("DX", DX), ("SI", SI),
+        ("DI", DI), ("SP", SP), ("BP", BP), ("R8W", R8W), ("R9W", R9W), ("R10W", R10W), ("R11W", R11W), ("R12W", R12W),
+        ("R13W", R13W), ("R14W", R14W), ("R15W", R15W), ("AL", AL), ("BL", BL), ("CL", CL), ("DL", DL), ("SIL", SIL),
+        ("DIL", DIL), ("SPL", SPL), ("BPL", BPL), ("R8L", R8L), ("R9L", R9L), ("R10L", R10L), ("R11L", R11L),
+        ("R12L", R12L), ("R13L", R13L), ("R14L", R14L), ("R15L", R15L), ("AH", AH), ("BH", BH), ("CH", CH), ("DH", DH),
+        ("XMM0", XMM0), ("XMM1", XMM1), ("XMM2", XMM2), ("XMM3", XMM3), ("XMM4", XMM4), ("XMM5", XMM5), ("XMM6", XMM6),
+        ("XMM7", XMM7), ("XMM8", XMM8), ("XMM9", XMM9), ("XMM10", XMM10), ("XMM11", XMM11), ("XMM12", XMM12),
+        ("XMM13", XMM13), ("XMM14", XMM14), ("XMM15", XMM15),
+    ]
+};
+
+fn reg(s: &str) -> SupportedRegister {
+    REGS.iter().find(|(n, _)| *n == s).unwrap_or_else(|| panic!("bad reg {}", s)).1
+}
+
+const GPR64: &[&str] =
+    &["RAX", "RBX", "RCX", "RDX", "RSI", "RDI", "RSP", "RBP", "R8", "R9", "R10", "R11", "R12", "R13", "R14", "R15"];
+
+fn mnemonic(s: &str) -> SupportedMnemonic {
+    use SupportedMnemonic::*;
+    for m in [
+        Adc, Add, And, Call, Cdq, Cdqe, Cld, Cmovae, Cmove, Cmovne, Cmp, Cpuid, Cqo, Cwd, Dec, Div, Endbr64, Idiv, Imul,
+        Inc, Int, Int1, Ja, Jae, Jb, Jbe, Je, Jecxz, Jg, Jge, Jl, Jle, Jmp, Jne, Jno, Jnp, Jns, Jo, Jp, Jrcxz, Js, Lea,
+        Mov, Movd, Movsxd, Movups, Movzx, Mul, Neg, Nop, Not, Pop, Push, Ret, Setb, Sete, Setne, Shl, Shr, Sub, Syscall,
+        Test, Xor, Xorps, Int3,
+    ] {
+        if m.name() == s {
+            return m;
+        }
+    }
+    panic!("bad mnemonic {}", s)
+}
+
+fn classify_err(msg: &str) -> &'static str {
+    let has = |s: &str| msg.contains(s);
+    if has("running before hooks") || has("running after hooks") {
+        "EHook"
+    } else if has("[fatal]") {
+        "EFatal"
+    } else if has("Executed unimplemented opcode") {
+        "EUnimpl"
+    } else if has("Divide by zero") {
+        "EDivZero"
+    } else if has("Cannot advance after execution has already finished") {
+        "EFinished"
+    } else if has("Instruction limit of") {
+        "ELimit"
+    } else if has("Cannot decode instruction") || has("Invalid instruction at offset") {
+        "EDecode"
+    } else if has("unimplemented operand kind") || has("Unsupported segment register") {
+        "EOperand"
+    } else if has("cannot execute unimplemented mnemonic") {
+        "EUnimpl"
+    } else if has("Cannot read") && has("access is") || has("Cannot write") && has("access is") {
+        "EPerm"
+    } else if has("is not contained in any memory area") || has("over end of memory area") || has("before start of memory area") {
+        "EMem"
+    } else if has("ELF:") {
+        "EElf"
+    } else {
+        "EOther"
+    }
+}
+
+fn classify_panic(msg: &str) -> &'static str {
+    let has = |s: &str| msg.contains(s);
+    if has("attempt to divide") || has("attempt to calculate the remainder") {
+        "PDiv"
+    } else if has("attempt to") && has("overflow") {
+        "PArith"
+    } else if has("assertion") {
+        "PAssert"
+    } else if has("Unsupported register") || has("Cannot convert operand") {
+        "PRegConv"
+    } else if has("called `Option::unwrap()`") || has("called `Result::unwrap()`") || has("reading memory operand") {
+        "PUnwrap"
+    } else if has("out of bounds") || has("out of range") || has("slice index") || has("range end index") || has("range start index") {
+        "PIndex"
+    } else if has("capacity overflow") {
+        "PCapacity"
+    } else {
+        "PExplicit"
+    }
+}
+
+fn panic_msg(e: Box<dyn std::any::Any + Send>) -> String {
+    if let Some(s) = e.downcast_ref::<&str>() {
+        s.to_string()
+    } else if let Some(s) = e.downcast_ref::<String>() {
+        s.clone()
+    } else {
+        "<non-string panic>".into()
+    }
+}
+
+/// run a fallible operation under catch_unwind and produce the result line
+fn guarded<T, F: FnOnce() -> Result<T, String>>(f: F, show: impl FnOnce(T) -> String) -> String {
+    match catch_unwind(AssertUnwindSafe(f)) {
+        Ok(Ok(v)) => {
+            let s = show(v);
+            if s.is_empty() { "r ok".into() } else { format!("r ok {}", s) }
+        }
+        Ok(Err(m)) => format!("r err {}", classify_err(&m)),
+        Err(p) => format!("r panic {}", classify_panic(&panic_msg(p))),
+    }
+}
+
+fn es(e: ax_x86::helpers::errors::AxError) -> String {
+    // From<AxError> for String panics on an empty error; Display uses it
+    String::from(e)
+}
+
+fn instr_line(i: &Instruction, raw: &[u8]) -> String {
+    format!(
+        "x dec {:x} {} {:?} {:?} {:x} {:x} {:x} {:?} {:?} {:?} {:?} {:?} {:?} {:?} {:?} {:?} {:?} {:x} {:x} {:?} {:x} {:x} {:x} {:x} {:x} {:x} {:x} {:x} {:x} {:x}",
+        i.ip(),
+        hexs(raw),
+        i.code(),
+        i.mnemonic(),
+        i.len(),
+        i.next_ip(),
+        i.op_count(),
+        i.op0_kind(),
+        i.op1_kind(),
+        i.op2_kind(),
+        i.op3_kind(),
+        i.op0_register(),
+        i.op1_register(),
+        i.op2_register(),
+        i.op3_register(),
+        i.memory_base(),
+        i.memory_index(),
+        i.memory_index_scale(),
+        i.memory_displacement64(),
+        i.memory_segment(),
+        i.immediate8(),
+        i.immediate8_2nd(),
+        i.immediate16(),
+        i.immediate32(),
+        i.immediate64(),
+        i.immediate8to16() as u16,
+        i.immediate8to32() as u32,
+        i.immediate8to64() as u64,
+        i.immediate32to64() as u64,
+        i.near_branch64(),
+    )
+}
+
+/// what the emulator's decode_at would see at rip (ignoring permissions); None if unmapped
+fn fetch_window(ax: &Axecutor, rip: u64) -> Option<Vec<u8>> {
+    for (k, (start, len, dlen, _acc, _n)) in ax.verif_areas().iter().enumerate() {
+        if *start <= rip && (rip as u128) < *start as u128 + *len as u128 {
+            let data = ax.verif_area_data(k)?;
+            let off = (rip - start) as usize;
+            if off > *dlen {
+                return None;
+            }
+            let end = std::cmp::min(off + 15, data.len());
+            return Some(data[off..end].to_vec());
+        }
+    }
+    None
+}
+
+fn decode_line(ax: &Axecutor) -> Option<String> {
+    let rip = ax.reg_read_64(SupportedRegister::RIP).ok()?;
+    let w = fetch_window(ax, rip)?;
+    let mut dec = Decoder::with_ip(64, &w, rip, DecoderOptions::NONE);
+    if !dec.can_decode() {
+        return Some(format!("x nodec {:x} {}", rip, hexs(&w)));
+    }
+    let i = dec.decode();
+    if i.is_invalid() {
+        return Some(format!("x nodec {:x} {}", rip, hexs(&w)));
+    }
+    Some(instr_line(&i, &w))
+}
+
+fn dump(ax: &Axecutor, out: &mut String) {
+    let mut s = String::from("d regs");
+    write!(s, " {:x}", ax.reg_read_64(SupportedRegister::RIP).unwrap_or(0)).unwrap();
+    for r in GPR64 {
+        write!(s, " {:x}", ax.reg_read_64(reg(r)).unwrap_or(0)).unwrap();
+    }
+    out.push_str(&s);
+    out.push('\n');
+    let mut s = String::from("d xmm");
+    for k in 0..16 {
+        write!(s, " {:x}", ax.reg_read_128(reg(&format!("XMM{}", k))).unwrap_or(0)).unwrap();
+    }
+    out.push_str(&s);
+    out.push('\n');
+    writeln!(
+        out,
+        "d misc {:x} {:x} {:x} {} {:x} {} {:x} {:x} {}",
+        ax.verif_rflags(),
+        ax.read_fs(),
+        ax.read_gs(),
+        ax.verif_finished() as u8,
+        ax.verif_executed_instructions_count(),
+        match ax.verif_max_instructions() {
+            Some(n) => format!("{:x}", n),
+            None => "none".into(),
+        },
+        ax.verif_stack_top(),
+        ax.verif_code_end_addr(),
+        ax.verif_hooks_running() as u8
+    )
+    .unwrap();
+    for (k, (start, len, dlen, acc, _name)) in ax.verif_areas().iter().enumerate() {
+        let data = ax.verif_area_data(k).unwrap_or_default();
+        let shown = if data.len() > 4096 {
+            // long areas: length + a cheap checksum + both ends
+            let mut h: u64 = 1469598103934665603;
+            for b in &data {
+                h = (h ^ (*b as u64)).wrapping_mul(1099511628211);
+            }
+            format!("long:{:x}:{}:{}", h, hexs(&data[..32]), hexs(&data[data.len() - 32..]))
+        } else {
+            hexs(&data)
+        };
+        writeln!(out, "d area {:x} {:x} {:x} {:x} {}", start, len, dlen, acc, shown).unwrap();
+    }
+    let mut s = String::from("d cs");
+    for a in ax.verif_call_stack() {
+        write!(s, " {:x}", a).unwrap();
+    }
+    out.push_str(&s);
+    out.push('\n');
+    let mut s = String::from("d trace");
+    for (ip, tgt, var, lvl, cnt) in ax.verif_trace() {
+        write!(s, " {:x}:{:x}:{}:{:x}:{:x}", ip, tgt, var, lvl as u16, cnt).unwrap();
+    }
+    out.push_str(&s);
+    out.push('\n');
+    let (regd, bs, bl, w, r, c) = ax.verif_syscall_state();
+    let mut s = format!("d sys {:x} {:x} reg", bs, bl);
+    for x in regd {
+        write!(s, " {:x}", x).unwrap();
+    }
+    s.push_str(" w");
+    for (a, b) in w {
+        write!(s, " {:x}:{:x}", a, b).unwrap();
+    }
+    s.push_str(" r");
+    for (a, b) in r {
+        write!(s, " {:x}:{:x}", a, b).unwrap();
+    }
+    s.push_str(" c");
+    for (a, b) in c {
+        write!(s, " {:x}:{}", a, hexs(&b)).unwrap();
+    }
+    out.push_str(&s);
+    out.push('\n');
+}
+
+#[derive(Clone)]
+enum HAct {
+    SetReg(SupportedRegister, u64),
+    IncReg(SupportedRegister),
+    WriteMem(u64, Vec<u8>),
+    SetFlags(u64),
+}
+
+fn make_hook(
+    result: char,
+    acts: Vec<HAct>,
+) -> &'static dyn Fn(&mut Axecutor, SupportedMnemonic) -> Result<HookResult, Box<dyn std::error::Error>> {
+    Box::leak(Box::new(move |ax: &mut Axecutor, _m: SupportedMnemonic| {
+        for a in &acts {
+            match a {
+                HAct::SetReg(r, v) => ax.reg_write_64(*r, *v)?,
+                HAct::IncReg(r) => {
+                    let v = ax.reg_read_64(*r)?;
+                    ax.reg_write_64(*r, v.wrapping_add(1))?
+                }
+                HAct::WriteMem(a, d) => ax.mem_write_bytes(*a, d)?,
+                HAct::SetFlags(v) => ax.verif_set_rflags(*v),
+            }
+        }
+        match result {
+            'H' => Ok(HookResult::Handled),
+            'U' => Ok(HookResult::Unhandled),
+            'S' => {
+                ax.stop();
+                Ok(HookResult::Unhandled)
+            }
+            _ => Err("scripted hook error".into()),
+        }
+    }))
+}
+
+fn same_state(a: &Axecutor, b: &Axecutor) -> bool {
+    let mut sa = String::new();
+    let mut sb = String::new();
+    dump(a, &mut sa);
+    dump(b, &mut sb);
+    sa == sb
+}
+
+fn run_case(lines: &[String], out: &mut String) {
+    let mut ax: Option<Axecutor> = None;
+    for l in lines {
+        let t: Vec<&str> = l.split_whitespace().collect();
+        if t.is_empty() {
+            continue;
+        }
+        let op = t[0];
+        if op == "new" {
+            let code = bytes(t[1]);
+            let (start, rip) = (hex(t[2]), hex(t[3]));
+            let r = catch_unwind(AssertUnwindSafe(|| Axecutor::new(&code, start, rip)));
+            match r {
+                Ok(Ok(a)) => {
+                    ax = Some(a);
+                    out.push_str("r ok\n")
+                }
+                Ok(Err(e)) => writeln!(out, "r err {}", classify_err(&es(e))).unwrap(),
+                Err(p) => writeln!(out, "r panic {}", classify_panic(&panic_msg(p))).unwrap(),
+            }
+            continue;
+        }
+        if op == "elf" {
+            let data = bytes(t[1]);
+            let r = catch_unwind(AssertUnwindSafe(|| Axecutor::from_binary(&data)));
+            match r {
+                Ok(Ok(a)) => {
+                    ax = Some(a);
+                    out.push_str("r ok\n")
+                }
+                Ok(Err(e)) => writeln!(out, "r err {}", classify_err(&es(e))).unwrap(),
+                Err(p) => writeln!(out, "r panic {}", classify_panic(&panic_msg(p))).unwrap(),
+            }
+            continue;
+        }
+        let a = match ax.as_mut() {
+            Some(a) => a,
+            None => {
+                out.push_str("r nomachine\n");
+                continue;
+            }
+        };
+        let line = match op {
+            "regw" => {
+                let bits = t[1];
+                let r = reg(t[2]);
+                if bits == "128" {
+                    let v = hex128(t[3]);
+                    guarded(|| a.reg_write_128(r, v).map_err(es), |_| String::new())
+                } else {
+                    let v = hex(t[3]);
+                    guarded(
+                        || match bits {
+                            "8" => a.reg_write_8(r, v),
+                            "16" => a.reg_write_16(r, v),
+                            "32" => a.reg_write_32(r, v),
+                            _ => a.reg_write_64(r, v),
+                        }
+                        .map_err(es),
+                        |_| String::new(),
+                    )
+                }
+            }
+            "regr" => {
+                let bits = t[1];
+                let r = reg(t[2]);
+                if bits == "128" {
+                    guarded(|| a.reg_read_128(r).map_err(es), |v| format!("{:x}", v))
+                } else {
+                    guarded(
+                        || match bits {
+                            "8" => a.reg_read_8(r),
+                            "16" => a.reg_read_16(r),
+                            "32" => a.reg_read_32(r),
+                            _ => a.reg_read_64(r),
+                        }
+                        .map_err(es),
+                        |v| format!("{:x}", v),
+                    )
+                }
+            }
+            "allregs" => {
+                for (k, r) in GPR64.iter().enumerate() {
+                    a.reg_write_64(reg(r), hex(t[1 + k])).unwrap();
+                }
+                "r ok".into()
+            }
+            "allxmm" => {
+                for k in 0..16 {
+                    a.reg_write_128(reg(&format!("XMM{}", k)), hex128(t[1 + k])).unwrap();
+                }
+                "r ok".into()
+            }
+            "flags" => {
+                a.verif_set_rflags(hex(t[1]));
+                "r ok".into()
+            }
+            "fsw" => {
+                a.write_fs(hex(t[1]));
+                "r ok".into()
+            }
+            "gsw" => {
+                a.write_gs(hex(t[1]));
+                "r ok".into()
+            }
+            "memr" => guarded(|| a.mem_read_bytes(hex(t[1]), hex(t[2])).map_err(es), |v| hexs(&v)),
+            "memw" => {
+                let d = bytes(t[2]);
+                guarded(|| a.mem_write_bytes(hex(t[1]), &d).map_err(es), |_| String::new())
+            }
+            "memrn" => {
+                let addr = hex(t[2]);
+                match t[1] {
+                    "1" => guarded(|| a.mem_read_8(addr).map_err(es), |v| format!("{:x}", v)),
+                    "2" => guarded(|| a.mem_read_16(addr).map_err(es), |v| format!("{:x}", v)),
+                    "4" => guarded(|| a.mem_read_32(addr).map_err(es), |v| format!("{:x}", v)),
+                    "8" => guarded(|| a.mem_read_64(addr).map_err(es), |v| format!("{:x}", v)),
+                    _ => guarded(|| a.mem_read_128(addr).map_err(es), |v| format!("{:x}", v)),
+                }
+            }
+            "memwn" => {
+                let addr = hex(t[2]);
+                match t[1] {
+                    "1" => guarded(|| a.mem_write_8(addr, hex(t[3])).map_err(es), |_| String::new()),
+                    "2" => guarded(|| a.mem_write_16(addr, hex(t[3])).map_err(es), |_| String::new()),
+                    "4" => guarded(|| a.mem_write_32(addr, hex(t[3])).map_err(es), |_| String::new()),
+                    "8" => guarded(|| a.mem_write_64(addr, hex(t[3])).map_err(es), |_| String::new()),
+                    _ => guarded(|| a.mem_write_128(addr, hex128(t[3])).map_err(es), |_| String::new()),
+                }
+            }
+            "init" => {
+                let d = bytes(t[2]);
+                guarded(|| a.mem_init_area(hex(t[1]), d).map_err(es), |_| String::new())
+            }
+            "zero" => guarded(|| a.mem_init_zero(hex(t[1]), hex(t[2])).map_err(es), |_| String::new()),
+            "zeroany" => guarded(|| a.mem_init_zero_anywhere(hex(t[1])).map_err(es), |v| format!("{:x}", v)),
+            "initany" => {
+                let d = bytes(t[1]);
+                guarded(|| a.mem_init_anywhere(d, None).map_err(es), |v| format!("{:x}", v))
+            }
+            "prot" => guarded(|| a.mem_prot(hex(t[1]), hex(t[2]) as u32).map_err(es), |_| String::new()),
+            "resize" => guarded(|| a.mem_resize_section(hex(t[1]), hex(t[2])).map_err(es), |_| String::new()),
+            "stack" => guarded(|| a.init_stack(hex(t[1])).map_err(es), |v| format!("{:x}", v)),
+            "stackps" => {
+                let len = hex(t[1]);
+                let na = hex(t[2]) as usize;
+                let argv: Vec<String> =
+                    (0..na).map(|k| String::from_utf8_lossy(&bytes(t[3 + k])).to_string()).collect();
+                let ne = hex(t[3 + na]) as usize;
+                let envp: Vec<String> =
+                    (0..ne).map(|k| String::from_utf8_lossy(&bytes(t[4 + na + k])).to_string()).collect();
+                guarded(|| a.init_stack_program_start(len, argv, envp).map_err(es), |v| format!("{:x}", v))
+            }
+            "maxinstr" => {
+                a.set_max_instructions(hex(t[1]));
+                "r ok".into()
+            }
+            "setstacktop" => {
+                a.verif_set_stack_top(hex(t[1]));
+                "r ok".into()
+            }
+            "setcodeend" => {
+                a.verif_set_code_end_addr(hex(t[1]));
+                "r ok".into()
+            }
+            "step" => {
+                if let Some(d) = decode_line(a) {
+                    out.push_str(&d);
+                    out.push('\n');
+                }
+                guarded(|| async_std::task::block_on(a.step()).map_err(es), |v| format!("{}", v as u8))
+            }
+            "exec" => {
+                // `execute` on a clone must agree with stepping in a loop (fuel-limited)
+                let fuel = hex(t[1]);
+                let mut twin = a.clone();
+                let mut res = String::from("r fuel");
+                for _ in 0..fuel {
+                    if let Some(d) = decode_line(a) {
+                        out.push_str(&d);
+                        out.push('\n');
+                    }
+                    let r = guarded(|| async_std::task::block_on(a.step()).map_err(es), |v| format!("{}", v as u8));
+                    if r == "r ok 1" {
+                        continue;
+                    }
+                    res = if r == "r ok 0" { "r ok".into() } else { r };
+                    break;
+                }
+                if res != "r fuel" {
+                    let tr = guarded(|| async_std::task::block_on(twin.execute()).map_err(es), |_| String::new());
+                    if tr != res || !same_state(a, &twin) {
+                        res = format!("{} EXECUTE-DIFFERS {}", res, tr);
+                    }
+                }
+                res
+            }
+            "hook" => {
+                let before = t[1] == "b";
+                let m = mnemonic(t[2]);
+                let result = t[3].chars().next().unwrap();
+                let n = hex(t[4]) as usize;
+                let mut acts = Vec::new();
+                let mut k = 5;
+                for _ in 0..n {
+                    match t[k] {
+                        "r" => {
+                            acts.push(HAct::SetReg(reg(t[k + 1]), hex(t[k + 2])));
+                            k += 3;
+                        }
+                        "i" => {
+                            acts.push(HAct::IncReg(reg(t[k + 1])));
+                            k += 2;
+                        }
+                        "m" => {
+                            acts.push(HAct::WriteMem(hex(t[k + 1]), bytes(t[k + 2])));
+                            k += 3;
+                        }
+                        "f" => {
+                            acts.push(HAct::SetFlags(hex(t[k + 1])));
+                            k += 2;
+                        }
+                        x => panic!("bad hook action {}", x),
+                    }
+                }
+                let h = make_hook(result, acts);
+                guarded(
+                    || {
+                        if before { a.hook_before_mnemonic_native(m, h) } else { a.hook_after_mnemonic_native(m, h) }
+                            .map_err(es)
+                    },
+                    |_| String::new(),
+                )
+            }
+            "syscalls" => {
+                let list: Vec<Syscall> = t[1..]
+                    .iter()
+                    .map(|s| match *s {
+                        "brk" => Syscall::Brk,
+                        "pipe" => Syscall::Pipe,
+                        "exit" => Syscall::Exit,
+                        _ => Syscall::ArchPrctl,
+                    })
+                    .collect();
+                guarded(|| a.handle_syscalls(list).map_err(es), |_| String::new())
+            }
+            "render" => {
+                let r1 = catch_unwind(AssertUnwindSafe(|| a.trace().is_ok()));
+                let r2 = catch_unwind(AssertUnwindSafe(|| a.call_stack().is_ok()));
+                let r3 = catch_unwind(AssertUnwindSafe(|| a.to_string().len() > 0));
+                format!(
+                    "r render {} {} {}",
+                    if r1.is_ok() { "ok" } else { "panic" },
+                    if r2.is_ok() { "ok" } else { "panic" },
+                    if r3.is_ok() { "ok" } else { "panic" }
+                )
+            }
+            "symbol" => match a.resolve_symbol(hex(t[1])) {
+                Some(s) => format!("r ok {}", hexs(s.as_bytes())),
+                None => "r ok none".into(),
+            },
+            "dump" => {
+                dump(a, out);
+                continue;
+            }
+            x => panic!("unknown op {}", x),
+        };
+        out.push_str(&line);
+        out.push('\n');
+    }
+}
+
 fn main() {
-    let ax = ax_x86::axecutor::Axecutor::new(&[0x90], 0x1000, 0x1000).unwrap();
-    println!("{}", ax.verif_rflags());
+    let args: Vec<String> = std::env::args().collect();
+    std::panic::set_hook(Box::new(|_| {}));
+    if args.len() >= 4 && args[1] == "run" {
+        let f = BufReader::new(std::fs::File::open(&args[2]).expect("open cases"));
+        let mut w = BufWriter::new(std::fs::File::create(&args[3]).expect("create out"));
+        let mut cur: Vec<String> = Vec::new();
+        let mut id = String::new();
+        for l in f.lines() {
+            let l = l.unwrap();
+            if let Some(rest) = l.strip_prefix("case ") {
+                id = rest.to_string();
+                cur.clear();
+            } else if l == "end" {
+                let mut out = String::new();
+                let r = catch_unwind(AssertUnwindSafe(|| run_case(&cur, &mut out)));
+                writeln!(w, "case {}", id).unwrap();
+                w.write_all(out.as_bytes()).unwrap();
+                if r.is_err() {
+                    writeln!(w, "r harness-panic").unwrap();
+                }
+                writeln!(w, "end").unwrap();
+            } else {
+                cur.push(l);
+            }
+        }
+        w.flush().unwrap();
+    } else if args.len() >= 2 && args[1] == "decode" {
+        // axh decode <rip> <hexbytes>: print the decode line for one byte string
+        let rip = hex(&args[2]);
+        let b = bytes(&args[3]);
+        let mut dec = Decoder::with_ip(64, &b, rip, DecoderOptions::NONE);
+        let i = dec.decode();
+        if i.is_invalid() {
+            println!("x nodec {:x} {}", rip, hexs(&b));
+        } else {
+            println!("{}", instr_line(&i, &b));
+        }
+    } else {
+        eprintln!("usage: axh run <cases> <out> | axh decode <rip> <hex>");
+        std::process::exit(2);
+    }
 }
